@@ -111,6 +111,37 @@ def check(ctx, rep):
             oks = len(calls) == 1 and term_callee_is(calls[0], 'cadence_macros::state::SingletonHolder::set') and calls[0][2][1] == ('param', 1) \
                 and len(gets) == 1 and peel(calls[0][2][0]) == holder_id
             rep.ob('W2', 'set_global_default-is-holder-set', oks, s.where(), 'set_global_default(c) = HOLDER.set(c)')
+    # "panics iff no global client has been set": a completed set must stay visible - the set-once part of C18 (writer
+    # election by one strong CAS from the initial state, losers leave everything alone, nobody else touches the state);
+    # memory orderings stay with C18
+    from . import c18
+    from .values import _Filter
+
+    class _Keep(_Filter):
+        KEEP = ('set/one-strong-cas', 'set/cas-from-initial-to-private-state', 'set/cas-result-examined', 'set/loser-leaves-everything-alone',
+                'frame', 'constants-distinct', 'get/none-until-complete', 'get/returns-clone-of-stored')
+
+        def ob(self, rule, instance, ok, *a, **k):
+            if instance in self.KEEP:
+                return self._r.ob('W4', instance, ok, *a, **k)
+            return True
+
+        def bad(self, rule, instance, *a, **k):
+            if instance in self.KEEP:
+                return self._r.bad('W4', instance, *a, **k)
+            return False
+
+        def unknown(self, rule, instance, *a, **k):
+            if instance in self.KEEP:
+                return self._r.unknown('W4', instance, *a, **k)
+            return False
+
+        def anchor_lost(self, rule, what, *a, **k):
+            return self._r.anchor_lost('W4', what, *a, **k)
+
+        def floor(self, rule, *a, **k):
+            return self._r.floor('W4', *a, **k)
+    c18.check(ctx, _Keep(rep, drop=()), upto='frame')
     # the quiet send itself never panics and reports to the handler: C03-R4
     fm = F.FormatterModel(ctx, rep)
     if fm.ok:
